@@ -265,6 +265,12 @@ class ApiWorld(ClientWorld):
                 cl.leader.pop(tp, None)
         elif kind == "coordinator":
             cl.coordinator[ev[1]] = ev[2]
+        elif kind == "drop_conns":
+            # the broker restarts (or an idle connection is reaped): its connections go away, it keeps listening
+            from twisted.internet import error
+            for c in list(self.net.open_conns()):
+                if c.server is not None and c.server.broker_id == ev[1]:
+                    c.close(error.ConnectionLost("broker %d restarted" % ev[1]))
         else:
             raise ValueError(ev)
 
@@ -331,6 +337,14 @@ class ApiWorld(ClientWorld):
 
     # ------------------------------------------------------------------ oracles: filled per property
     def judge_call(self, c):
+        from twisted.python.failure import Failure
+        if self.PROP in ("C07", "C11") and self.deviations_taken == 0 and isinstance(c.result, (Failure, Exception)) \
+                and not self.cfg.get("expect_failure") and c.api in ("produce", "fetch", "offsets", "offset_fetch",
+                                                                     "offset_commit", "metadata", "coordinator"):
+            self.viol("healthy", "call-fails-on-a-healthy-cluster:%s" % c.api,
+                      "call %d (%s) failed with %r although every broker is reachable and answers correctly and "
+                      "promptly (requests on the wire for it: %d)" % (
+                          c.idx, c.api, getattr(c.result, "value", c.result), len(self.replies_delivered_to(c))))
         if self.PROP == "C07":
             self.judge_routing(c)
         if self.PROP == "C20" and c.after_close:
@@ -755,6 +769,13 @@ class ApiWorld(ClientWorld):
         """Connections to a broker are made to the address of the latest answer that described it."""
         for j in self.net.journal:
             pass
+
+    def app_guard(self, op):
+        # by default the next call is issued once the previous ones have completed (oracles attribute wire requests
+        # to "the" call in flight); concurrency is requested explicitly with a "calls" op or by early injection
+        if op[0] == "call" and any(not c.fired for c in self.calls):
+            return False
+        return True
 
     # ------------------------------------------------------------------ explorer protocol
     def quiescent(self):
